@@ -746,6 +746,9 @@ pub fn random_profile(rng: &mut Rng, flat: &Flat, kind: usize) -> Profile {
                         for (i, x) in v.iter_mut().enumerate() {
                             *x = if i == big {
                                 1.0
+                            } else if rng.chance(0.15) {
+                                // positive subnormal probabilities are probabilities too
+                                *rng.pick(&[5e-324, 1e-320, 1e-310, f64::MIN_POSITIVE])
                             } else {
                                 10f64.powf(-300.0 * rng.unit())
                             };
